@@ -186,6 +186,33 @@ def model_check(spec, cfg, scratch, workers="auto", timeout=1200, extra=(), env=
     return st
 
 
+def apalache_inductive(spec, scratch, init="Init", indinit="IndInit", inv="IndInv", cinit="ConstInit", timeout=900):
+    """discharge an inductive invariant with Apalache: Init => inv (length 0) and indinit /\\ Next => inv' (length 1).
+    Runs on a private copy of the spec (Apalache writes next to it). Raises Infra unless both obligations are proved."""
+    d = tempfile.mkdtemp(prefix="apalache-", dir=scratch.dir)
+    shutil.copy(os.path.join(SPECS, spec), d)
+    out = {}
+    try:
+        for name, i, n in (("base", init, 0), ("step", indinit, 1)):
+            cmd = ["apalache-mc", "check", "--out-dir=" + os.path.join(d, "out"), "--init=" + i, "--inv=" + inv, "--length=%d" % n]
+            if cinit:
+                cmd.append("--cinit=" + cinit)
+            cmd.append(spec)
+            t0 = time.time()
+            try:
+                r = subprocess.run(cmd, cwd=d, stdout=subprocess.PIPE, stderr=subprocess.STDOUT, text=True, timeout=timeout)
+            except subprocess.TimeoutExpired:
+                raise Infra("apalache timeout (%ds) on %s (%s)" % (timeout, spec, name))
+            wall = time.time() - t0
+            if r.returncode != 0 or "EXITCODE: OK" not in r.stdout or "The outcome is: NoError" not in r.stdout:
+                raise Infra("apalache did not prove the %s obligation of %s in %s (rc=%d):\n%s" % (name, inv, spec, r.returncode, r.stdout[-3000:]))
+            log("[apalache] %s: %s obligation of %s proved in %.1fs" % (spec, name, inv, wall))
+            out[name] = dict(init=i, length=n, wall_s=round(wall, 1))
+    finally:
+        shutil.rmtree(d, ignore_errors=True)
+    return dict(spec=spec, invariant=inv, tool="apalache-mc", obligations=out)
+
+
 def model_counterexample(spec, cfg, inv, scratch, workers="auto", timeout=1200, heap=None):
     """run a configuration that models a (repaired or recorded) defect faithfully and REQUIRE that TLC finds the
     violation of `inv` - evidence that the specification is sharp enough to exhibit the defect."""
